@@ -16,4 +16,7 @@ for cfg in ("family", "positive"):
     if os.path.isdir(facts.CONFIGS[cfg]["dir"]):
         p = facts.extract(cfg, verbose=True)
         print("facts ok:", cfg, p)
+from rrlint import witness
+r = witness.run_witnesses()
+print("witnesses:", sum(1 for v in r["results"].values() if v == "ok"), "of", len(r["results"]), "ok")
 PY
